@@ -3,10 +3,12 @@ import Rink.Driver.Eval
 import Rink.Driver.Sandbox
 import Rink.Driver.Digits
 import Rink.Driver.Expr
+import Rink.Driver.Subst
 
 def main (args : List String) : IO UInt32 := do
   match args with
   | ["alloc"] => Rink.Driver.Alloc.main; return 0
+  | ["subst", dump] => Rink.Driver.Subst.main dump; return 0
   | ["expr"] => Rink.Driver.Expr.main; return 0
   | ["digits"] => Rink.Driver.Digits.main; return 0
   | ["sandbox"] => Rink.Driver.Sandbox.main; return 0
